@@ -28,6 +28,9 @@ type Case struct {
 	A      []string `json:"a"`
 	B      []string `json:"b"`
 	Indent string   `json:"indent"`
+	// Inspected: the desired state is inspected from a live database created with B's DDL (what
+	// `--to sqlite://...` does) instead of evaluated from B's HCL; auto indexes then carry engine names.
+	Inspected bool `json:"inspected,omitempty"`
 }
 
 func stateOf(names []string) squ.State {
@@ -200,7 +203,7 @@ func Eval(ctx context.Context, c Case) (res Result) {
 		res.Skipped = "engine rejects B"
 		return
 	}
-	ref.Close()
+	defer ref.Close()
 	defer func() {
 		if p := recover(); p != nil {
 			bad("panic: %v", p)
@@ -218,7 +221,12 @@ func Eval(ctx context.Context, c Case) (res Result) {
 		return
 	}
 	desired := &schema.Realm{}
-	if err := sqlite.EvalHCLBytes([]byte(B.HCL()), desired, nil); err != nil {
+	if c.Inspected {
+		if desired, err = ref.Atlas.InspectRealm(ctx, nil); err != nil {
+			bad("inspect desired: %v", err)
+			return
+		}
+	} else if err := sqlite.EvalHCLBytes([]byte(B.HCL()), desired, nil); err != nil {
 		bad("harness: HCL: %v", err)
 		return
 	}
@@ -332,8 +340,9 @@ func pairs(tier string) []Case {
 	for _, a := range u1 {
 		for _, b := range u1 {
 			for _, ind := range []string{"", "  "} {
-				cs = append(cs, Case{a.Names(), b.Names(), ind})
+				cs = append(cs, Case{a.Names(), b.Names(), ind, false})
 			}
+			cs = append(cs, Case{a.Names(), b.Names(), "", true})
 		}
 	}
 	u2 := squ.Universe(2)
@@ -347,7 +356,7 @@ func pairs(tier string) []Case {
 				if (len(a)+len(b))%2 == 1 {
 					ind = "  "
 				}
-				cs = append(cs, Case{a.Names(), b.Names(), ind})
+				cs = append(cs, Case{a.Names(), b.Names(), ind, (len(a)+len(b))%3 == 0})
 			}
 		}
 		return cs
@@ -358,7 +367,7 @@ func pairs(tier string) []Case {
 		}
 		for i := 0; i < 2; i++ {
 			sub := squ.State{s[i]}
-			cs = append(cs, Case{s.Names(), sub.Names(), ""}, Case{sub.Names(), s.Names(), "  "})
+			cs = append(cs, Case{s.Names(), sub.Names(), "", false}, Case{sub.Names(), s.Names(), "  ", true})
 		}
 	}
 	return cs
@@ -466,7 +475,7 @@ func Run(r *report.Run) {
 		}
 	}
 	r.Set("mysql_postgres_plans_checked_for_flag_and_down_files", pn)
-	r.Rule = "(planner level) MySQL and PostgreSQL plans of the differ universe (create-all, drop-all, every single edit, a fifth of the compatible pairs; thorough: all pairs) x 2 indents: parts (a) and (b) below; (engine level) pairs (A,B) of the SQLite universe as in C01 x indent {none, two spaces}: plan from the real differ/planner; (a) Reversible <=> every change has a reverse statement, a plan that rebuilds a table is never reversible; (b) for the 5 third-party formatters the down part (our own extraction + the dialect scanner) equals the reverse statements in reverse change order; (c) for reversible plans: up then down on the real engine restores the catalogue read by our own pragma dump, and atlas reports no difference from the starting schema in both directions; non-trivial = pair with a non-empty plan; distinct = (A,B,indent)"
+	r.Rule = "(planner level) MySQL and PostgreSQL plans of the differ universe (create-all, drop-all, every single edit, a fifth of the compatible pairs; thorough: all pairs) x 2 indents: parts (a) and (b) below; (engine level) pairs (A,B) of the SQLite universe as in C01 x indent {none, two spaces} x desired state {evaluated from HCL, inspected from a live database built with B's DDL}: plan from the real differ/planner; (a) Reversible <=> every change has a reverse statement, a plan that rebuilds a table is never reversible; (b) for the 5 third-party formatters the down part (our own extraction + the dialect scanner) equals the reverse statements in reverse change order; (c) for reversible plans: up then down on the real engine restores the catalogue read by our own pragma dump, and atlas reports no difference from the starting schema in both directions; non-trivial = pair with a non-empty plan; distinct = (A,B,indent,source)"
 	r.Assumptions = []string{"MySQL/PostgreSQL plans are covered for (a) and (b) by the planner-level checks; (c) needs an engine and is SQLite only"}
 	cs := pairs(r.Tier)
 	var mu sync.Mutex
